@@ -1,5 +1,6 @@
 import Avfs.FS.Enum
 import Avfs.Lemmas.PathMore
+import Avfs.Lemmas.Enum
 /-
   C14 — Glob, WalkDir and ReadDir enumerate exactly what exists.
   Subject: Avfs.FS.glob / walkDirTop / readDir / the existence helpers (models of vfs.go, vfs_aferoutils.go over the
@@ -23,9 +24,70 @@ theorem C14_walk_missing_root (s : Store) (v : View) (vid : Nat) (root : Bytes) 
   unfold walkDirTop
   simp [h, callFn]
 
+/-- `stat` of the model only ever answers with an info or an error -/
+theorem stat_ok_info (s : Store) (v : View) (p : Bytes) (m : SlMode) (o : Val) (h : (stat s v p m).2 = .ok o) :
+    ∃ i, o = .info i := by
+  exact stat_ok_info' s v p m o h
+
+/-- the helpers answer exactly what Stat implies -/
+theorem C14_exists_iff_stat (s : Store) (v : View) (p : Bytes) :
+    ((pathExists s v p).1 = true ↔ ∃ i, (stat s v p .stat).2 = .ok (.info i)) := by
+  unfold pathExists
+  constructor
+  · intro h
+    split at h
+    · next o ho => obtain ⟨i, rfl⟩ := stat_ok_info s v p .stat o ho; exact ⟨i, ho⟩
+    all_goals simp at h
+  · rintro ⟨i, hi⟩
+    simp [hi]
+
+theorem C14_isDir_iff (s : Store) (v : View) (p : Bytes) (i : Info) (h : (stat s v p .stat).2 = .ok (.info i)) :
+    isDir s v p = (i.kind == 0, none) ∧ dirExists s v p = (i.kind == 0, none) := by
+  unfold isDir dirExists
+  simp [h]
+  by_cases hk : i.kind = 0 <;> simp [hk]
+
+/-- a pattern without meta characters matches exactly when Lstat succeeds (the path itself, nil otherwise) -/
+theorem C14_glob_no_meta (s : Store) (v : View) (vid : Nat) (fuel : Nat) (p : Bytes) (hm : hasMeta p = false)
+    (hok : ∃ b, pmatch .linux p [] = .ok b) :
+    glob s v vid (fuel + 1) p = (match (stat s v p .lstat).2 with | .ok _ => .ok [p] | _ => .ok []) := by
+  obtain ⟨b, hb⟩ := hok
+  simp only [glob, hb, hm]
+  cases (stat s v p .lstat).2 <;> rfl
+
 /-- Glob reports a malformed pattern and never panics on its own pattern check -/
 theorem C14_glob_bad_pattern (s : Store) (v : View) (vid : Nat) (fuel : Nat) (p : Bytes)
     (hb : pmatch .linux p [] = .badPattern) : glob s v vid (fuel + 1) p = .badPattern := by
   simp [glob, hb]
+
+/-- listings are sorted by name (byte order) and duplicate-free, whatever the insertion history of the directory -/
+theorem C14_names_sorted_nodup (s : Store) (d : Ino) :
+    (s.names d).Pairwise (fun a b => bytesLt a b = true) ∧ (s.names d).Nodup := by
+  exact ⟨names_sorted s d, names_nodup s d⟩
+
+/-- a name is listed exactly when the directory has an entry of that name (ReadDir ⇔ Lstat of the entry) -/
+theorem C14_names_iff_child (s : Store) (d : Ino) (n : Bytes) : n ∈ s.names d ↔ (s.child d n).isSome = true := by
+  exact mem_names s d n
+
+/-- ReadDir returns exactly the entries of the directory it resolves to, in name order, with the type of each entry -/
+theorem C14_readDir_exact (s : Store) (v : View) (vid : Nat) (p : Bytes) (l : List Info) (hp : p ≠ [])
+    (h : readDir s v vid p = .ok (.infos l)) :
+    ∃ d, (searchNode s v p .eval).child = some d ∧ isDirAt s d = true ∧
+      l.map (·.name) = (s.names d).filter (fun n => ((s.child d n).bind fun c => fillStat s c n).isSome) ∧
+      ∀ i ∈ l, ∃ c, s.child d i.name = some c ∧ fillStat s c i.name = some i := by
+  have _ := hp   -- implied by `h` (the repaired OpenFile refuses the empty name): `openFile_ok_ne`
+  exact readDir_exact s v vid p l h
+
+/-- with a callback that always continues, the first visit is the root and every later visit is an entry of a
+    directory visited before it (nothing is invented) — stated for the single-level case: walking a directory whose
+    entries are all files visits the root then exactly its sorted entries -/
+theorem C14_walk_flat (s : Store) (v : View) (vid : Nat) (root : Bytes) (i : Info) (l : List Info)
+    (hst : (stat s v root .lstat).2 = .ok (.info i)) (hk : i.kind = 0)
+    (hrd : readDir s v vid root = .ok (.infos l)) (hfiles : ∀ e ∈ l, e.kind ≠ 0) :
+    (walkDirTop s v vid root []).1.visited =
+      (root, 0, none) :: l.map (fun e => (join .linux [root, e.name], e.kind, none)) ∧
+    (walkDirTop s v vid root []).2 = .none := by
+  rw [walkDirTop_flat s v vid root i l hst hk hrd hfiles]
+  exact ⟨rfl, rfl⟩
 
 end Avfs.FS
